@@ -225,7 +225,18 @@ def check(ctx: Ctx) -> None:
             fn = enclosing_function_name(c)
             ctx.instance("R17.3", f"{mname.split('.')[-1]}:{fn}: {norm(c)[:50]}")
             if mname == "pyimpspec.mock_data":
-                if name == "RandomState" and any(k.arg == "seed" and norm(k.value) == "seed" for k in c.keywords):
+                def seeded(e: ast.AST) -> bool:
+                    # a function of the caller's `seed` (through local single assignments) and constants only
+                    from ..elements import module_consts
+                    consts = set(module_consts(ctx.repo, mname))
+                    fnode = enclosing(c, (ast.FunctionDef,))
+                    from ..prov import Resolver
+                    ex = Resolver(fnode).resolve(e, c) if fnode is not None else e
+                    names = {x.id for x in ast.walk(ex) if isinstance(x, ast.Name)}
+                    calls_ = [x for x in ast.walk(ex) if isinstance(x, ast.Call) and dotted(x.func) not in ("int", "abs")]
+                    return "seed" in names and names <= ({"seed", "None", "int", "abs"} | consts) and not calls_
+                sk = [k.value for k in c.keywords if k.arg == "seed"] + list(c.args[:1])
+                if name == "RandomState" and sk and seeded(sk[0]):
                     ctx.ok()
                 else:
                     ctx.violation("R17.3", f"mock_data:{fn}:{name}", mname, c, f"mock data must draw only from RandomState(seed=seed); found {norm(c)[:60]}")
@@ -354,9 +365,29 @@ def _unordered(ctx: Ctx, model, fi, w: ast.With, pc: ast.Call) -> None:
     if lp is None:
         # iterator = pool.imap_unordered(...); while True: res = iterator.next() …
         lp = next((n for n in walk_ordered(w) if isinstance(n, ast.While)), None)
+    via_helper = None
+    if lp is None and isinstance(parent(pc), ast.Call) and parent(pc) is not pc:
+        # the iterator is handed to a collecting helper: follow it (parameter → its consuming loop → returned list)
+        hc = parent(pc)
+        hq = model.resolve_call(fi, hc)
+        if hq and hq in model.funcs:
+            from ..prov import call_args
+            hfi = model.funcs[hq]
+            bound = call_args(hc, hfi.node, skip_self=isinstance(hc.func, ast.Attribute))
+            pname = next((k for k, v in bound.items() if v is pc), None)
+            hl = [n for n in walk_ordered(hfi.node) if isinstance(n, ast.For) and norm(n.iter) == pname] if pname else []
+            rets = [norm(r.value) for r in walk_ordered(hfi.node) if isinstance(r, ast.Return) and r.value is not None]
+            st_ = parent(hc)
+            if len(hl) == 1 and isinstance(st_, (ast.Assign, ast.AnnAssign)):
+                inner = [norm(c.func.value) for s_ in hl[0].body for c in calls_in(s_) if isinstance(c.func, ast.Attribute) and c.func.attr == "append"]
+                if inner and rets == [inner[0]]:
+                    lp = hl[0]
+                    via_helper = norm(st_.targets[0] if isinstance(st_, ast.Assign) else st_.target)
     if lp is None:
         raise AnalysisError(f"{fi.qual}: imap_unordered is consumed neither by a for loop nor by an iterator loop")
     sinks = [norm(c.func.value) for s in lp.body for c in calls_in(s) if isinstance(c.func, ast.Attribute) and c.func.attr == "append"]
+    if via_helper:
+        sinks = [via_helper]
     if not sinks:
         raise AnalysisError(f"{fi.qual}: results of imap_unordered are not collected in a list")
     # decisions taken while results are still arriving depend on the arrival order
